@@ -198,6 +198,8 @@ func c16BuildShared(seed uint64, history bool) *c16Shared {
 type c16Own struct {
 	e *secp256k1.Element
 	s *secp256k1.Scalar
+	// the goroutine's own long-lived tag buffer: written, used, overwritten, used again (same address, same length)
+	dbuf []byte
 }
 
 func digest(parts ...any) uint64 {
@@ -207,7 +209,7 @@ func digest(parts ...any) uint64 {
 	return h.Sum64()
 }
 
-const c16NOps = 60
+const c16NOps = 63
 
 func c16Do(op int, st *c16Own, sh *c16Shared, r *gen.Rng) (name string, d uint64, deterministic bool) {
 	ei := r.Intn(len(sh.elems))
@@ -442,6 +444,57 @@ func c16Do(op int, st *c16Own, sh *c16Shared, r *gen.Rng) (name string, d uint64
 		k.Negate()
 
 		return fmt.Sprintf("Element.Copy(e%d)/Set(e%d) then changed", ei, ei), digest(c.Encode(), k.EncodeUncompressed()), true
+	case 60:
+		// decoded from a private copy of a shared encoding, which its owner then overwrites: the element must not follow
+		// the buffer (checked against a second element decoded from another copy that is left alone)
+		b1, b2 := append([]byte{}, C...), append([]byte{}, C...)
+		x, y := secp256k1.NewElement(), secp256k1.NewElement()
+		e1, e2 := x.Decode(b1), y.Decode(b2)
+
+		for i := range b1 {
+			b1[i] ^= 0xa5
+		}
+
+		if errS(e1) != errS(e2) || !bytes.Equal(x.Encode(), y.Encode()) || x.Hex() != y.Hex() {
+			return "TRUTH-VIOLATED: an element decoded from a buffer changed when the buffer's owner overwrote it afterwards", 1, true
+		}
+
+		return fmt.Sprintf("Element.Decode(copy of enc%d), buffer reused", ci), digest(errS(e1), x.Encode()), true
+	case 61:
+		// the same tag content from the goroutine's own, reused buffer and from the shared slice: same result
+		if len(D) == 0 || len(D) > 600 {
+			return "HashToScalar(own buffer)(skip)", 0, true
+		}
+
+		if st.dbuf == nil {
+			st.dbuf = make([]byte, 600)
+		}
+
+		copy(st.dbuf, D)
+		own := secp256k1.HashToScalar(M, st.dbuf[:len(D):len(D)]).Encode()
+
+		// the buffer is edited in place and used again at once
+		for i := 0; i < len(D); i++ {
+			st.dbuf[i] ^= 0x5c
+		}
+
+		own2 := secp256k1.HashToScalar(M, st.dbuf[:len(D):len(D)]).Encode()
+		edited := append([]byte{}, st.dbuf[:len(D)]...)
+
+		if !bytes.Equal(own, secp256k1.HashToScalar(M, D).Encode()) || !bytes.Equal(own2, secp256k1.HashToScalar(M, edited).Encode()) {
+			return "TRUTH-VIOLATED: HashToScalar depends on WHICH slice holds the tag, not only on its content (a reused buffer gives the result of its earlier content)", 1, true
+		}
+
+		return fmt.Sprintf("HashToScalar(msg%d, own reused buffer = dst%d)", mi, di), digest(own), true
+	case 62:
+		// chaining on returned elements when the receiver is a fresh identity: what is returned is the receiver, so the
+		// shared argument stays out of it
+		acc := secp256k1.NewElement()
+		acc = acc.Add(E)
+		acc = acc.Add(E).Double()
+		sub := secp256k1.NewElement().Subtract(E).Negate()
+
+		return fmt.Sprintf("NewElement().Add(e%d) chained", ei), digest(acc.Encode(), sub.Encode()), true
 	default:
 		if !bytes.Equal(secp256k1.HashToGroup(sh.probeMsg, sh.probeDst).Encode(), sh.truthH2G) ||
 			!bytes.Equal(secp256k1.Base().Multiply(sh.scalars[3]).Encode(), sh.truthNegG) {
